@@ -40,7 +40,7 @@ def run(cx, chk):
     chk.rule("C14.R2", "countdown: Some paths decrement len by exactly 1 under len != 0; None paths store nothing; size_hint/count exact; ExactSize+Fused for all")
     chk.rule("C14.R3", "constructors set len/ptr/end from map.len()/(*head).next/(*tail).prev; per-list accessors delegate to the list their name says")
     chk.rule("C14.R5", "the countdown the iterators start from (map.len()) equals the number of linked nodes whenever user code can observe the cache: at every eviction-callback site every node is linked iff indexed")
-    chk.rule("C14.R6", "the order the iterators expose is recency order: every use operation of RawLRU moves the hit node to the head (detach then attach), and prev/next are stored only by the link primitives")
+    chk.rule("C14.R6", "the order the iterators expose is recency order: every use operation of RawLRU moves the hit node to the head (detach then attach), prev/next are stored only by the link primitives, and every RawLRU operation leaves each node linked iff indexed")
     chk.rule("C14.R4", "Keys*/Values* project the key/val component of the wrapped iterator, same direction")
     for cfg, F in cx.cfgs():
         iters = api.iterator_heads(F)
@@ -307,6 +307,14 @@ def recency_order(cx, chk, cfg, F):
     for f, p, w in ntrun.walk(cx, cfg):
         n += 1
         for fd in w.findings:
+            if fd["rule"].startswith("C03.R1") and (f["q"].startswith(RAWMOD) or "<" + RAWMOD in f["q"]):
+                # the countdown walk needs exactly map.len() nodes between the sentinels: every operation of RawLRU must leave
+                # each node linked iff indexed (typestate engine of C03.R1, reported here for the list the iterators walk)
+                bad += 1
+                g = F.fns.get(fd["fn"]) or f
+                chk.violation("C14.R6", "typestate|%s|%s" % (g["q"], ntrun.norm(fd["msg"])[:120]),
+                              "%s (reached from %s): the iterators count map.len() nodes along the chain, so chain and index must hold the same nodes" % (fd["msg"], f["q"]),
+                              g["span"]["file"], fd["ln"], g["q"], ["root " + f["q"]], cfg)
             if fd["rule"] == "C03.R4" and "prev/next" in fd["msg"]:
                 bad += 1
                 g = F.fns.get(fd["fn"]) or f
